@@ -18,3 +18,7 @@ pub mod lang;
 pub mod num;
 pub mod ser;
 pub mod units;
+pub mod elem;
+pub mod eval;
+pub mod fmt;
+pub mod intfns;
